@@ -927,8 +927,8 @@ func TestC08(t *testing.T) {
 	r.Set("json_encoding_of_pooled_ballots", !raceEnabled)
 
 	tot := &totals{counts: map[string]int{}}
-	rigs := 8
-	rounds := r.N(25, 625) // 200 / 5000 rounds
+	rigs := r.N(8, 16)
+	rounds := r.N(25, 313) // 200 / 5008 rounds
 	var wg sync.WaitGroup
 	for i := 0; i < rigs; i++ {
 		wg.Add(1)
